@@ -6,8 +6,9 @@
 (* (composed with FileManager.tla).  Events:                               *)
 (*   Case  {cs}                 the case (what the plugin was scripted to  *)
 (*                              do, the time limit)                        *)
-(*   Spawn {same}               the plugin ran and decoded a request;      *)
-(*                              same: it equals the compiler's own         *)
+(*   Spawn {dumped, same}       thriftgo started the plugin; dumped: the   *)
+(*                              plugin recorded the request it decoded;    *)
+(*                              same: that request equals the compiler's   *)
 (*   Gone  {alive}              observed after thriftgo exited: is the     *)
 (*                              plugin process still alive                 *)
 (*   Begin, File, UPatch, NPatch, End {err, resp}                          *)
@@ -42,7 +43,10 @@ RespNames(j) == {T[j].resp[i].name : i \in 1..Len(T[j].resp)}
 
 TSilent == Silent /\ (Build \/ PluginFinish \/ TimerFire \/ Kill \/ CollectBad)
 
-TSpawn == IsEvent("Spawn") /\ Ev.same /\ Spawn
+\* a plugin that was killed for exceeding the limit may not have got as far as recording the request
+TSpawn == /\ IsEvent("Spawn") /\ Spawn
+          /\ Ev.dumped => Ev.same
+          /\ ~Ev.dumped => Beyond(cs)
 
 TGone == /\ IsEvent("Gone") /\ ~Ev.alive
          /\ pl \in {"exited", "killed"}
